@@ -497,7 +497,8 @@ def parse_enum(adt: dict) -> EnumSpec:
                     raise Unmodelled("strum_discriminants meta " + m.key)
         elif p == "repr" and a.get("form") == "list":
             es.repr_tokens = tokens_text(a["tokens"])
-            parts = split_commas(a["tokens"])
-            if len(parts) == 1 and len(parts[0]) == 1 and parts[0][0]["t"] == "ident" and parts[0][0]["v"] in INT_REPRS:
-                es.repr_int = parts[0][0]["v"]
+            # the integer type may be one of several hints (`C, u8`, `align(2), i16`), in any of several #[repr] attributes
+            for part in split_commas(a["tokens"]):
+                if len(part) == 1 and part[0]["t"] == "ident" and part[0]["v"] in INT_REPRS:
+                    es.repr_int = part[0]["v"]
     return es
